@@ -196,6 +196,13 @@ class FnPrinter:
                 if k in tq and r.get('name') in tab: return str(tab[r['name']])
             if r.get('name') == 'npos': return '((unsigned long)-1)'
             if r.get('name') == 'nullopt': return '0'
+            # node ids of two dumps do not line up: a static data member / namespace-scope variable looked up by (name, type)
+            cands = [d for d in self.tr.decl.values() if d.get('kind') == 'VarDecl' and d.get('name') == r.get('name')
+                     and d.get('type', {}).get('qualType') == r.get('type', {}).get('qualType') and (d.get('storageClass') == 'static' or self.tr.parent.get(d['id'], {}).get('kind') in ('CXXRecordDecl', 'NamespaceDecl'))]
+            ids = {d['id'] for d in cands}
+            if len(ids) >= 1 and len({self.tr.qname_of.get(self.tr.parent.get(d['id'], {}).get('id')) for d in cands}) == 1:
+                n2 = dict(n); n2['referencedDecl'] = dict(r); n2['referencedDecl']['id'] = cands[0]['id']
+                return self.ex_DeclRefExpr(n2)
             self.fail(n, 'reference to variable %s that is not loaded' % r.get('name'))
         env = self.node.get('_lambda_env')
         if env and rid in env[1]:
